@@ -474,7 +474,7 @@ def rel3(ctx, c):
                 and "additional_needs_resolution" not in U(n_.test):
             sites.append(("fix_addresses", U(n_.test), n_))
     for name, test, node in sites:
-        good = "left.is_address_expression()" in test
+        good = ".is_address_expression()" in test
         f = fn if name.startswith("determine") else fa
         c.check(good, "%s:address-expression-predicate" % name, "guarded by left.is_address_expression()", "guarded by %s" % test,
                 "%s takes the label index out of an expression operand under `%s`; expressions containing a label are tagged ADDRESS_EXPRESSION by resolve(), "
